@@ -80,6 +80,10 @@ pub struct MsgCase {
     pub extras: Vec<Extra>,
     /// index into the rejected tuples / accepted tuples of the pattern's domain
     pub pick: u8,
+    /// the `matching!` invocations are laid out over several lines (the usual rustfmt layout for long patterns):
+    /// the location named by the messages is the line where the invocation starts
+    #[serde(default)]
+    pub multiline: bool,
 }
 
 pub const PRELUDE_EXTRA: &str = r#"
@@ -291,7 +295,7 @@ pub fn source(c: &MsgCase) -> String {
         )
     };
     let wt = wt.replace("::<", "::<");
-    let pat = c.macro_args();
+    let pat = if c.multiline { format!("\n                {}\n            ", c.macro_args()) } else { c.macro_args() };
     let (rej, acc) = c.rejected_and_accepted();
     s.push_str("pub fn run() -> String {\n    let mut out: Vec<String> = vec![];\n");
     let call = |tuple: &Vec<Val>, s: &mut String| -> String {
@@ -334,14 +338,14 @@ pub fn source(c: &MsgCase) -> String {
     if let Some(t) = &rej {
         scenario(
             "nomatch",
-            &format!("{f}.each_call(matching!({pat}) /*MARK_A*/).returns(1u8)"),
+            &format!("{f}.each_call(/*MARK_A*/ matching!({pat})).returns(1u8)"),
             t,
             false,
             &mut s,
         );
         scenario(
             "ordered-inputs",
-            &format!("{f}.next_call(matching!({pat}) /*MARK_B*/).returns(1u8)"),
+            &format!("{f}.next_call(/*MARK_B*/ matching!({pat})).returns(1u8)"),
             t,
             false,
             &mut s,
@@ -351,7 +355,7 @@ pub fn source(c: &MsgCase) -> String {
         // the failing call comes after an earlier, caught mock error about another call
         s.push_str("    {\n");
         s.push_str(&format!(
-            "        let u = Unimock::new({f}.each_call(matching!({pat}) /*MARK_L*/).returns(1u8)).no_verify_in_drop();\n"
+            "        let u = Unimock::new({f}.each_call(/*MARK_L*/ matching!({pat})).returns(1u8)).no_verify_in_drop();\n"
         ));
         s.push_str(&format!(
             "        let _ = std::panic::catch_unwind(std::panic::AssertUnwindSafe(|| {{ <Unimock as Tr{gargs}>::g(&u, 9u8); }}));\n"
@@ -366,21 +370,21 @@ pub fn source(c: &MsgCase) -> String {
     if let Some(t) = &acc {
         scenario(
             "explicit",
-            &format!("{f}.each_call(matching!({pat}) /*MARK_C*/).panics(\"boom-text\")"),
+            &format!("{f}.each_call(/*MARK_C*/ matching!({pat})).panics(\"boom-text\")"),
             t,
             false,
             &mut s,
         );
         scenario(
             "twice",
-            &format!("{f}.some_call(matching!({pat}) /*MARK_D*/).returns(1u8)"),
+            &format!("{f}.some_call(/*MARK_D*/ matching!({pat})).returns(1u8)"),
             t,
             true,
             &mut s,
         );
         scenario(
             "nooutput",
-            &format!("{f}.stub(|each| {{ each.call(matching!({pat}) /*MARK_E*/); }})"),
+            &format!("{f}.stub(|each| {{ each.call(/*MARK_E*/ matching!({pat})); }})"),
             t,
             false,
             &mut s,
@@ -391,21 +395,21 @@ pub fn source(c: &MsgCase) -> String {
             let decoy = format!("({}) if false", vec!["_"; arity].join(", "));
             scenario(
                 "explicit-2nd",
-                &format!("({f}.each_call(matching!({decoy})).returns(9u8),\n            {f}.each_call(matching!({pat}) /*MARK_H*/).panics(\"boom-text\"))"),
+                &format!("({f}.each_call(matching!({decoy})).returns(9u8),\n            {f}.each_call(/*MARK_H*/ matching!({pat})).panics(\"boom-text\"))"),
                 t,
                 false,
                 &mut s,
             );
             scenario(
                 "twice-2nd",
-                &format!("({f}.some_call(matching!({decoy})).returns(9u8),\n            {f}.some_call(matching!({pat}) /*MARK_I*/).returns(1u8))"),
+                &format!("({f}.some_call(matching!({decoy})).returns(9u8),\n            {f}.some_call(/*MARK_I*/ matching!({pat})).returns(1u8))"),
                 t,
                 true,
                 &mut s,
             );
             scenario(
                 "nooutput-2nd",
-                &format!("{f}.stub(|each| {{\n            each.call(matching!({decoy})).returns(9u8);\n            each.call(matching!({pat}) /*MARK_J*/);\n        }})"),
+                &format!("{f}.stub(|each| {{\n            each.call(matching!({decoy})).returns(9u8);\n            each.call(/*MARK_J*/ matching!({pat}));\n        }})"),
                 t,
                 false,
                 &mut s,
@@ -413,7 +417,7 @@ pub fn source(c: &MsgCase) -> String {
         }
         scenario(
             "wrongorder",
-            &format!("({g}.next_call(matching!(7) /*MARK_F*/).returns(1u8), {f}.next_call(matching!({pat})).returns(1u8))"),
+            &format!("({g}.next_call(/*MARK_F*/ matching!(7)).returns(1u8), {f}.next_call(matching!({pat})).returns(1u8))"),
             t,
             false,
             &mut s,
@@ -422,7 +426,7 @@ pub fn source(c: &MsgCase) -> String {
         {
             s.push_str("    {\n");
             s.push_str(&format!(
-                "        let u = Unimock::new(({g}.next_call(matching!(7) /*MARK_K*/).returns(1u8).n_times(2),\n            {f}.next_call(matching!({pat})).returns(1u8))).no_verify_in_drop();\n"
+                "        let u = Unimock::new(({g}.next_call(/*MARK_K*/ matching!(7)).returns(1u8).n_times(2),\n            {f}.next_call(matching!({pat})).returns(1u8))).no_verify_in_drop();\n"
             ));
             s.push_str(&format!("        let _ = <Unimock as Tr{gargs}>::g(&u, 7u8);\n"));
             let mut body = String::new();
@@ -455,7 +459,7 @@ pub fn source(c: &MsgCase) -> String {
         );
         // verification line naming the pattern
         s.push_str("    {\n");
-        s.push_str(&format!("        let u = Unimock::new({f}.each_call(matching!({pat}) /*MARK_G*/).returns(1u8).n_times(2));\n"));
+        s.push_str(&format!("        let u = Unimock::new({f}.each_call(/*MARK_G*/ matching!({pat})).returns(1u8).n_times(2));\n"));
         let mut body = String::new();
         let callexpr = call(t, &mut body);
         s.push_str(&body);
@@ -586,6 +590,9 @@ pub fn judge(c: &MsgCase, line: &str) -> Result<CaseInfo, String> {
                 classes.push("pattern-text-matched-by-atoms-only");
             }
             classes.push("pattern-named-with-location");
+            if c.multiline {
+                classes.push("location-of-a-multi-line-matching!-invocation");
+            }
             if tag == "wrongorder-partial" {
                 classes.push("wrong-order-while-a-pattern-is-partly-consumed");
             }
@@ -719,11 +726,12 @@ pub fn case_strategy() -> impl Strategy<Value = MsgCase> {
         proptest::collection::vec(extra, 0..=2),
         any::<u8>(),
         any::<bool>(),
+        proptest::bool::weighted(0.4),
     )
-        .prop_filter("needs at least one pattern argument", |(p, _, _, _)| {
+        .prop_filter("needs at least one pattern argument", |(p, _, _, _, _)| {
             !p.tys.is_empty()
         })
-        .prop_map(|(mut pattern, mut extras, pick, simple)| {
+        .prop_map(|(mut pattern, mut extras, pick, simple, multiline)| {
             pattern.parenthesized = false;
             if simple {
                 // the mismatch-position part of the property: guard-free, single alternative
@@ -741,11 +749,12 @@ pub fn case_strategy() -> impl Strategy<Value = MsgCase> {
                 pattern,
                 extras,
                 pick,
+                multiline,
             }
         })
 }
 
-pub const RULE: &str = "programs = C06's pattern grammar (1-4 pattern-typed arguments) extended by 0-2 extra parameters {type without Debug, reference to it, &u32, &&u32, &mut u32, generic without / with Debug bound, slice of non-Debug values}; for each pattern one rejected and one accepted argument tuple of the finite domain are chosen and every mock-induced error kind is triggered on a fresh mock: no matching call patterns, inputs not matched in call order, explicit panic, value returned twice, no output available, wrong order, out of range, no mock implementation, cannot unmock, no default impl, plus a failed verification naming the pattern. Non-trivial = arity >= 2 with a reference parameter and a checked mismatch report; distinct = distinct case";
+pub const RULE: &str = "programs = C06's pattern grammar (1-4 pattern-typed arguments) extended by 0-2 extra parameters {type without Debug, reference to it, &u32, &&u32, &mut u32, generic without / with Debug bound, slice of non-Debug values}; for each pattern one rejected and one accepted argument tuple of the finite domain are chosen and every mock-induced error kind is triggered on a fresh mock: no matching call patterns, inputs not matched in call order, explicit panic, value returned twice, no output available, wrong order, out of range, no mock implementation, cannot unmock, no default impl, plus a failed verification naming the pattern; the matching! invocations are written on one line or laid out over several lines (the named location is the line where the invocation starts). Non-trivial = arity >= 2 with a reference parameter and a checked mismatch report; distinct = distinct case";
 
 fn spec<'a>(prelude: &'a str) -> Spec<'a, MsgCase> {
     Spec {
